@@ -141,3 +141,142 @@ func errIsGuard(pkg, name string) Guard {
 		return ok && g.Name() == name && g.Pkg != nil && g.Pkg.Pkg.Path() == pkg
 	}}
 }
+
+// errorLostOnSomePath: the error produced by call is neither examined,
+// returned, stored nor passed on along some path from the call to an exit of
+// fn - typically because a later assignment to the same variable overwrites it
+// before the test ("err = a(); if cond { err = b() }; if err != nil").
+// Errors that are discarded outright (no use at all) are A10's business and
+// are not reported here.
+func errorLostOnSomePath(fn *ssa.Function, call *ssa.Call) []*ssa.BasicBlock {
+	sig := callSignature(&call.Call)
+	if sig == nil {
+		return nil
+	}
+	idx := errorResultIndex(sig)
+	if idx < 0 {
+		return nil
+	}
+	carriers := map[ssa.Value]bool{}
+	var startAfter ssa.Instruction = call
+	if sig.Results().Len() == 1 {
+		carriers[call] = true
+	} else {
+		for _, ref := range *call.Referrers() {
+			if ex, ok := ref.(*ssa.Extract); ok && ex.Index == idx {
+				carriers[ex] = true
+			}
+		}
+	}
+	if len(carriers) == 0 {
+		return nil
+	}
+	uses := map[ssa.Instruction]bool{}
+	phiUse := map[*ssa.Phi]bool{}
+	n := 0
+	for v := range carriers {
+		for _, ref := range *v.Referrers() {
+			switch x := ref.(type) {
+			case *ssa.DebugRef:
+			case *ssa.Phi:
+				phiUse[x] = true
+				n++
+			default:
+				uses[ref] = true
+				n++
+			}
+		}
+	}
+	if n == 0 {
+		return nil // discarded outright: A10
+	}
+	type pos struct {
+		b *ssa.BasicBlock
+		i int
+	}
+	b0 := startAfter.Block()
+	start := 0
+	for i, in := range b0.Instrs {
+		if in == startAfter {
+			start = i + 1
+		}
+	}
+	type node struct {
+		p    pos
+		prev *node
+	}
+	queue := []*node{{p: pos{b0, start}}}
+	seen := map[*ssa.BasicBlock]bool{}
+	for len(queue) > 0 {
+		nd := queue[0]
+		queue = queue[1:]
+		b := nd.p.b
+		consumed := false
+		exit := false
+		for _, in := range b.Instrs[nd.p.i:] {
+			if uses[in] {
+				consumed = true
+				break
+			}
+			switch in.(type) {
+			case *ssa.Return:
+				exit = true
+			}
+		}
+		if consumed {
+			continue
+		}
+		if exit {
+			var path []*ssa.BasicBlock
+			for x := nd; x != nil; x = x.prev {
+				path = append([]*ssa.BasicBlock{x.p.b}, path...)
+			}
+			return path
+		}
+		for _, s := range b.Succs {
+			pi := -1
+			for k, p := range s.Preds {
+				if p == b {
+					pi = k
+				}
+			}
+			edgeUse := false
+			for _, in := range s.Instrs {
+				ph, ok := in.(*ssa.Phi)
+				if !ok {
+					break
+				}
+				if phiUse[ph] && pi >= 0 && carriers[ph.Edges[pi]] {
+					edgeUse = true
+				}
+			}
+			if edgeUse || seen[s] {
+				continue
+			}
+			seen[s] = true
+			queue = append(queue, &node{p: pos{s, 0}, prev: nd})
+		}
+	}
+	return nil
+}
+
+// probeErrLost lists every call whose error can be lost on some path (development aid).
+func probeErrLost(c *Ctx) {
+	n := 0
+	for _, fn := range c.allFuncs {
+		if fn.Blocks == nil {
+			continue
+		}
+		eachInstr(fn, func(in ssa.Instruction) {
+			call, ok := in.(*ssa.Call)
+			if !ok {
+				return
+			}
+			if p := errorLostOnSomePath(fn, call); p != nil {
+				n++
+				fmt.Println("ERRLOST", fnKey(fn), "/", calleeNameOr(call), "@", c.Pos(call.Pos()), strings.Join(c.pathString(p), " -> "))
+			}
+		})
+	}
+	fmt.Println("lost:", n)
+}
